@@ -73,6 +73,10 @@ type HeadWithTime = (String, i64);
 
 const DEFAULT_REMOTE_NAME: &str = "origin";
 
+/// Name of the directory (inside the temporary repo directory) that a commit is checked out to
+/// before it is moved to its final location, see `fetch`.
+const CHECKOUT_STAGING_DIR_NAME: &str = "checkout";
+
 /// Everything needed to recognize a checkout in offline mode
 ///
 /// Since we are omitting `.git` folder to save disk space, we need an indexing file
@@ -518,16 +522,21 @@ pub fn fetch(fetch_id: u64, name: &str, pinned: &Pinned) -> Result<PathBuf> {
         let id = git2::Oid::from_str(&pinned.commit_hash)?;
         repo.set_head_detached(id)?;
 
-        // If the directory exists, remove it. Note that we already check for an existing,
-        // cached checkout directory for re-use prior to reaching the `fetch` function.
-        if path.exists() {
-            let _ = fs::remove_dir_all(&path);
-        }
-        fs::create_dir_all(&path)?;
+        // Checkout into a staging directory inside the temporary repo directory first. The
+        // finished checkout (including its index file) is only moved to its final location with
+        // a single `rename` below, so a crash or an I/O error half way through can never leave a
+        // partially written checkout at `path`: later builds re-use `path` as is as soon as it
+        // exists. A left-over staging directory is removed together with the temporary repo
+        // directory.
+        let staging = repo
+            .workdir()
+            .ok_or_else(|| anyhow!("temporary git repo has no working directory"))?
+            .join(CHECKOUT_STAGING_DIR_NAME);
+        fs::create_dir_all(&staging)?;
 
-        // Checkout HEAD to the target directory.
+        // Checkout HEAD to the staging directory.
         let mut checkout = git2::build::CheckoutBuilder::new();
-        checkout.force().target_dir(&path);
+        checkout.force().target_dir(&staging);
         repo.checkout_head(Some(&mut checkout))?;
 
         // Fetch HEAD time and create an index
@@ -544,9 +553,20 @@ pub fn fetch(fetch_id: u64, name: &str, pinned: &Pinned) -> Result<PathBuf> {
 
         // Write the index file
         fs::write(
-            path.join(".forc_index"),
+            staging.join(".forc_index"),
             serde_json::to_string(&source_index)?,
         )?;
+
+        // If the directory exists, remove it. Note that we already check for an existing,
+        // cached checkout directory for re-use prior to reaching the `fetch` function.
+        if path.exists() {
+            let _ = fs::remove_dir_all(&path);
+        }
+        if let Some(parent) = path.parent() {
+            fs::create_dir_all(parent)?;
+        }
+        // Atomically publish the complete checkout.
+        fs::rename(&staging, &path)?;
         Ok(())
     })?;
     Ok(path)
